@@ -18,6 +18,7 @@ message) is not modelled (`none` is any exception); of PropFold (final locals) o
 import Gsu.Proofs.LangFold
 import Gsu.Proofs.LangProp
 import Gsu.Gen.Folder
+import Gsu.Model.Dnum
 namespace Gsu.Props.C30
 open Gsu.LangFold
 
@@ -88,6 +89,35 @@ theorem fold_nary_reassoc_counter :
 theorem dec16_not_associative :
     dec16.add (dec16.add 10000000000000000 5) 5 ≠ dec16.add 10000000000000000 (dec16.add 5 5) := by
   decide
+
+/-- `*` / `/` re-association (`foldMul`): `7 / 7 / x` is a `*` list with two reciprocal operands.
+At run time it is `7 / (7 * x)` (codegen divides the product of the factors by the product of the
+divisors); the folder first divides the constant factor by the constant divisor (`7 / 7 = 1`),
+drops the resulting `1` and leaves the reciprocal `1 / x` — for every arithmetic `A` with
+`A.div 7 7 = 1`. -/
+theorem fold_muldiv_reassoc_shape (A : Arith) (x : Int) (h1 : A.mul 1 7 = 7) (h7 : A.div 7 7 = 1) :
+    let e := Expr.nary .mul [.const (.int 7), .unary .div (.const (.int 7)), .unary .div (.var 0)]
+    eval A [.int x] e = some (.int (A.div 7 (A.mul 7 x))) ∧
+    foldErr (fNary A .mul [.const (.int 7), .unary .div (.const (.int 7)), .unary .div (.var 0)]) = none ∧
+    (∀ e', fNary A .mul [.const (.int 7), .unary .div (.const (.int 7)), .unary .div (.var 0)] = .ok e' →
+      eval A [.int x] e' = some (.int (A.div 1 x))) := by
+  refine ⟨by simp [eval, evalMulDiv, nbin, toNum, nop], ?_, ?_⟩
+  · simp [fNary, ckMath, constNonNum, isNum, foldMul, mulGo, toNum, h1, h7, foldErr, unaryDivOrConstant]
+  · intro e' he
+    simp [fNary, ckMath, constNonNum, isNum, foldMul, mulGo, toNum, h1, h7, unaryDivOrConstant] at he
+    subst he
+    simp [eval, evalU, toNum]
+
+/-- …and the 16-digit decimal division (the `Gsu.Model.Dnum` mirror of util/dnum) does not
+satisfy `7 / (7 * 7) = 1 / 7`: …429 against …428. Together with `fold_muldiv_reassoc_shape` this is
+the witness `function(x){ 7 / 7 / x }`, x = 7: .1428571428571429 at run time, .1428571428571428
+folded. -/
+theorem fold_muldiv_reassoc_counter :
+    Gsu.Dnum.div (Gsu.Dnum.fromInt 7) (Gsu.Dnum.mul (Gsu.Dnum.fromInt 7) (Gsu.Dnum.fromInt 7)) ≠
+      Gsu.Dnum.div (Gsu.Dnum.fromInt 1) (Gsu.Dnum.fromInt 7) := by decide
+
+-- non-vacuity: exact integers meet the two hypotheses
+example : exactA.mul 1 7 = 7 ∧ exactA.div 7 7 = 1 := by decide
 
 /-- Finding 23a: the "cannot do math on … literal" check fires on a folded intermediate:
 `~(1 in (2, 3))` is `-1` at run time and a compile error when folded. -/
